@@ -624,6 +624,9 @@ pub fn space(_tier: Tier, id: &str) -> Option<Box<dyn Space>> {
     if let Some(r) = reversed_of(id, |base| space(_tier, base)) {
         return r;
     }
+    if let Some(r) = concurrent_of(id, |base| space(_tier, base)) {
+        return r;
+    }
     match id {
         "sheets" => Some(Box::new(Sheets { specs: specs() })),
         _ => None,
@@ -639,7 +642,7 @@ fn run(ctx: &Ctx) -> i32 {
         eprintln!("MACHINERY: C20 self-check failed: {}", e);
         return 2;
     }
-    let spaces = vec![("sheets", space(ctx.tier, "sheets").unwrap()), ("sheets~rev", space(ctx.tier, "sheets~rev").unwrap())];
+    let spaces = vec![("sheets", space(ctx.tier, "sheets").unwrap()), ("sheets~rev", space(ctx.tier, "sheets~rev").unwrap()), ("sheets~par", space(ctx.tier, "sheets~par").unwrap())];
     let n = specs().len();
     run_e1(
         ctx,
